@@ -304,6 +304,9 @@ func NamedCoercer(name string) func(any) (any, error) {
 			case []any:
 				return x, nil
 			}
+			if v != nil && reflect.TypeOf(v).Kind() == reflect.Slice {
+				return v, nil // typed slices are lists too
+			}
 			return nil, fmt.Errorf("csv: unsupported")
 		}
 	}
